@@ -45,6 +45,8 @@ def gen_prog(rng):
         pa = rng.choice([0.25, 0.5])
         pb = rng.choice([-0.5, 0.25, 0.5, 1.0])
         dep = rng.choice([0.0, 0.0, 0.25]) if i > 0 else 0.0     # shift when the previous bit is true
+        if pa + max(pb, 0.0) * 0.25 + dep >= 1.0:
+            dep = 0.0        # keep every site probability inside the open domain (0,1) for theta in [0,1]
         sites.append({"est": est, "a": pa, "b": pb, "dep": dep})
     leaf = {"c0": rng.choice([0.0, 1.0, -2.0]), "c1": rng.choice([0.0, 1.0, 2.0]),
             "w": [rng.choice([1.0, -1.0, 3.0]) for _ in range(n)],
@@ -180,6 +182,66 @@ def reparam_case(rng):
     return c
 
 
+def consistency_case(rng, k=None):
+    """seeded draws of a sampled ADEV primitive follow the density the primitive is scored with
+    (needed for the score-function estimators to be unbiased under seed): goodness of fit of 3000
+    draws against exp(logpdf of the same primitive) (discrete) or the documented family (continuous)"""
+    import math
+    import scipy.stats as st
+    import genjax
+    N = 3000
+    prims = ["flip_reinforce", "geometric_reinforce", "normal_reinforce", "uniform_reinforce",
+             "normal_reparam", "uniform_reparam", "flip_mvd", "multivariate_normal_reinforce",
+             "multivariate_normal_reparam", "multivariate_normal_diag_reparam"]
+    which = rng.choice(prims) if k is None else prims[k % len(prims)]
+    c = {"kind": "consistency", "prim": which}
+    try:
+        prim = getattr(genjax, which, None) or getattr(adev, which)
+        if which.startswith("flip"):
+            args = (jnp.float32(rng.choice([0.125, 0.3, 0.75])),)
+        elif which.startswith("geometric"):
+            args = (jnp.float32(rng.choice([-1.0, 0.3, 1.5])),)
+        elif which.startswith("normal"):
+            args = (jnp.float32(rng.choice([-1.0, 0.5])), jnp.float32(rng.choice([0.5, 2.0])))
+        elif which.startswith("uniform"):
+            a = rng.choice([-1.0, 0.5])
+            args = (jnp.float32(a), jnp.float32(a + rng.choice([0.5, 2.0])))
+        elif which == "multivariate_normal_diag_reparam":
+            args = (jnp.asarray([0.5, -1.0], dtype=jnp.float32), jnp.asarray([0.5, 2.0], dtype=jnp.float32))
+        else:
+            L = np.array([[rng.choice([0.5, 2.0]), 0.0], [rng.choice([-1.0, 1.5]), rng.choice([0.5, 1.0])]])
+            args = (jnp.asarray([0.5, -1.0], dtype=jnp.float32), jnp.asarray(L @ L.T, dtype=jnp.float32))
+        c["args"] = [np.asarray(a).tolist() for a in args]
+        draw = prim.sample if hasattr(prim, "logpdf") else prim
+        xs = np.asarray(seed(modular_vmap(lambda: draw(*args), axis_size=N))(jax.random.key(rng.randrange(10 ** 6))))
+        if which.startswith("flip") or which.startswith("geometric"):
+            ks = list(range(0, 2 if which.startswith("flip") else 80))
+            scorer = prim if hasattr(prim, "logpdf") else flip     # flip_mvd is a bare primitive of flip's law
+            pm = np.array([math.exp(float(scorer.logpdf(jnp.asarray(bool(k)) if which.startswith("flip") else jnp.float32(k), *args))) for k in ks])
+            obs = np.array([(xs.astype(np.float64) == k).sum() for k in ks], dtype=np.float64)
+            keep = pm * N >= 5
+            o = list(obs[keep]) + [N - obs[keep].sum()]
+            e = list(pm[keep] * N) + [N - (pm[keep] * N).sum()]
+            if e[-1] < 1e-6:
+                o, e = o[:-1], e[:-1]
+            stat = sum((a - b) ** 2 / b for a, b in zip(o, e))
+            pv = float(st.chi2.sf(stat, max(1, len(o) - 1)))
+        elif which.startswith("normal"):
+            pv = float(st.kstest(xs.astype(np.float64), st.norm(float(args[0]), float(args[1])).cdf).pvalue)
+        elif which.startswith("uniform"):
+            pv = float(st.kstest(xs.astype(np.float64), st.uniform(float(args[0]), float(args[1] - args[0])).cdf).pvalue)
+        else:
+            cov = np.diag(np.asarray(args[1], dtype=np.float64) ** 2) if which.endswith("diag_reparam") else np.asarray(args[1], dtype=np.float64)
+            z = np.linalg.solve(np.linalg.cholesky(cov), (xs.astype(np.float64) - np.asarray(args[0])).T).T
+            corr = abs(np.mean(z[:, 0] * z[:, 1])) * math.sqrt(N)
+            pv = min(st.kstest(z[:, 0], "norm").pvalue, st.kstest(z[:, 1], "norm").pvalue, 2 * st.norm.sf(corr))
+        c["pvalue"] = float(pv)
+        c["ok"] = bool(pv > 1e-6)
+    except Exception as e:  # noqa: BLE001
+        c["err"] = type(e).__name__ + ": " + str(e)[:200]
+    return c
+
+
 # ---------------------------------------------------------------- C15
 
 
@@ -293,7 +355,7 @@ def main():
     cases = []
     if which == "c11":
         for i in range(n):
-            cases.append(c11_case(rng) if i % 3 != 2 else reparam_case(rng))
+            cases.append(consistency_case(rng, sd * 3 + i // 6) if i % 6 == 5 else c11_case(rng) if i % 3 != 2 else reparam_case(rng))
     else:
         cases.extend(canon_cases())
         names = sorted(det_programs())
